@@ -44,7 +44,7 @@ func c03MakeOperand(name string, kind int, lit bool, doc map[string]interface{},
 		if lit {
 			o.num, o.text = 2, "2"
 		} else if wantConcreteNumber {
-			cands := []float64{0, 1.5, -3, 100, 1e21, 0.1}
+			cands := []float64{0, 1.5, -3, 100, 1e21, 0.1, 2, 1}
 			o.num = cands[verifChoose(len(cands))]
 			doc[name] = o.num
 		} else {
@@ -74,7 +74,10 @@ func c03MakeOperand(name string, kind int, lit bool, doc map[string]interface{},
 		if lit {
 			o.num, o.text = 1, "[1]"
 		} else {
-			o.num = hFinite()
+			o.num = 1.5
+			if !wantConcreteNumber {
+				o.num = hFinite()
+			}
 			doc[name] = []interface{}{o.num}
 		}
 		o.val = []interface{}{o.num}
@@ -82,7 +85,10 @@ func c03MakeOperand(name string, kind int, lit bool, doc map[string]interface{},
 		if lit {
 			o.num, o.text = 1, `{"k":1}`
 		} else {
-			o.num = hFinite()
+			o.num = 1.5
+			if !wantConcreteNumber {
+				o.num = hFinite()
+			}
 			doc[name] = map[string]interface{}{"k": o.num}
 		}
 		o.val = map[string]interface{}{"k": o.num}
@@ -214,9 +220,18 @@ func VerifH_C03_Op() {
 	}
 	lit := verifChoose(2) == 1
 	doc := map[string]interface{}{}
+	// "&" needs numerals (number formatting is the library's) and ".." builds its list only from
+	// concrete bounds; the range guards are checked on symbolic doubles separately
 	concreteNum := op == "&"
+	if op == ".." && !lit {
+		concreteNum = verifChoose(2) == 1
+	}
 	x := c03MakeOperand("x", kx, lit, doc, concreteNum)
 	y := c03MakeOperand("y", ky, lit, doc, concreteNum)
+	if op == ".." && !lit && !concreteNum && kx == kNumber && ky == kNumber {
+		// symbolic bounds: everything except the list-building case
+		verifAssume(!(c03IsInt(x.num) && c03IsInt(y.num) && x.num <= y.num && y.num-x.num < 10000000))
+	}
 	var expr string
 	var want c03Want
 	switch op {
@@ -350,8 +365,8 @@ func c03Range(x, y c03Operand) c03Want {
 		return c03Want{kind: oEvalError, etype: ErrMaxRangeItems}
 	}
 	out := []interface{}{}
-	for v := x.num; v <= y.num; v++ {
-		out = append(out, v)
+	for i := 0; i <= int(d); i++ {
+		out = append(out, x.num+float64(i))
 	}
 	return c03Want{kind: oValue, val: out}
 }
